@@ -134,6 +134,14 @@ struct Controller {
             if (++busy_streak > 4 * (long)p.size() + 8) {
                 int b = advance(me);
                 if (b >= 0) { nx = b; busy_streak = 0; spin_advances++; }
+                else if (busy_streak > 5000) {
+                    // thousands of hand-overs in a row in which every participant that can run only spins, nobody sleeps
+                    // towards a deadline, blocks, finishes or wakes anybody: they wait for each other
+                    std::string st;
+                    for (auto& q : p) st += std::to_string(q.state);
+                    if (on_deadlock) st += " " + on_deadlock();
+                    violation("deadlock: every participant that can run busy-waits (" + std::to_string(busy_streak) + " hand-overs without anybody making progress; states " + st + ", 0=run 1=idle 2=done)");
+                }
             }
             busy_handoffs++;
             if (nx != me) handoff(me, nx);
